@@ -98,7 +98,7 @@ def design_scales(des):
 
 
 # ------------------------------------------------------- hyper-parameter lattice
-LS_MULT = {"none": (0.05, 0.12, 0.3), "y_err": (0.1, 0.3, 0.9), "y_cov": (0.1, 0.3, 0.9), "inv": (0.15, 0.5, 1.5)}  # "inv": used by checks/c17.py
+LS_MULT = {"none": (0.08, 0.25, 0.7), "y_err": (0.1, 0.3, 0.9), "y_cov": (0.1, 0.3, 0.9), "inv": (0.15, 0.5, 1.5)}  # "inv": used by checks/c17.py
 AMP_OFF = (-1.0, 0.0, 1.2)
 RQ_ALPHA = (-1.0, 1.0, 3.0)
 WN_OFF = (-4.0, -2.0, -0.5)
